@@ -282,3 +282,327 @@ def rule_w1(ctx):
                     f"are wrapped with column_vectors={w[1]}: rep[word] @ p "
                     "is not the word's matrix acting on the column vector",
                     instance=f"{cname}:column-convention")
+
+
+# ---------------------------------------------------------------------------
+# HAD: no elementwise product of two matrices on the way to a generator
+
+
+MATRIX_FUNCS = {"symmetric_projection", "symmetric_inclusion", "utils.invert",
+                "np.linalg.inv", "utils.identity", "np.identity",
+                "self._word_value", "np.array", "np.concatenate",
+                "np.tensordot", "np.zeros", "utils.zeros", "np.kron",
+                "self.element", "np.eye"}
+
+
+def _rep_names(f):
+    """Local names bound to Representation objects in f."""
+    names = set()
+    for n in ast.walk(f.node):
+        if isinstance(n, ast.Assign) and len(n.targets) == 1 \
+                and isinstance(n.targets[0], ast.Name) \
+                and isinstance(n.value, ast.Call):
+            fn = dotted(n.value.func)
+            if fn.endswith("Representation") or fn in (
+                    "self.tensor_product", "self._compose", "self.compose",
+                    "self.__class__", "self.symmetric_square", "self.dual"):
+                names.add(n.targets[0].id)
+    for p in f.params:
+        if p in ("rep", "representation"):
+            names.add(p)
+    names.add("self")
+    return names
+
+
+def matrix_kind(e, defs, reps, depth=0):
+    if isinstance(e, ast.Name):
+        if e.id in defs and depth < 5:
+            return matrix_kind(defs[e.id], defs, reps, depth + 1)
+        return e.id in ("matrix", "mat", "image", "inv_image", "composed",
+                        "inv_mat")
+    if isinstance(e, ast.Subscript):
+        b = e.value
+        if isinstance(b, ast.Name) and b.id in reps:
+            return True
+        if isinstance(b, ast.Attribute) and b.attr == "generators":
+            return True
+        return matrix_kind(b, defs, reps, depth)
+    if isinstance(e, ast.Call):
+        n = dotted(e.func)
+        if n in MATRIX_FUNCS:
+            return True
+        if isinstance(e.func, ast.Attribute) and e.func.attr in (
+                "swapaxes", "astype", "copy", "transpose"):
+            return matrix_kind(e.func.value, defs, reps, depth)
+        return False
+    if isinstance(e, ast.Attribute) and e.attr == "T":
+        return matrix_kind(e.value, defs, reps, depth)
+    if isinstance(e, ast.BinOp):
+        if isinstance(e.op, ast.MatMult):
+            return True
+        return matrix_kind(e.left, defs, reps, depth) or \
+            matrix_kind(e.right, defs, reps, depth)
+    if isinstance(e, ast.UnaryOp):
+        return matrix_kind(e.operand, defs, reps, depth)
+    return False
+
+
+def _generator_stores(f):
+    """(stmt, value expr) for `X[g] = v` on a representation and
+    `_set_generator(g, v)` calls."""
+    reps = _rep_names(f)
+    out = []
+    for n in ast.walk(f.node):
+        if isinstance(n, ast.Assign) and len(n.targets) == 1 \
+                and isinstance(n.targets[0], ast.Subscript):
+            b = n.targets[0].value
+            if isinstance(b, ast.Name) and b.id in reps and b.id != "self":
+                out.append((n, n.value))
+            elif isinstance(b, ast.Attribute) and b.attr == "generators":
+                out.append((n, n.value))
+        if isinstance(n, ast.Call) and isinstance(n.func, ast.Attribute) \
+                and n.func.attr in ("_set_generator", "set_generator") \
+                and len(n.args) >= 2:
+            out.append((n, n.args[1]))
+    return reps, out
+
+
+def rule_had(ctx, min_stores=5):
+    r = ctx.r
+    r.rule("HAD", "on the def-use path to a generator assignment "
+                  "(rep[g] = .., _set_generator(g, ..)) no `*` combines two "
+                  "matrix-kinded values: an elementwise (Hadamard) product "
+                  "is not functorial")
+    m = ctx.p.module_by_rel(REP)
+    n_stores = 0
+    for f in ctx.p.all_functions:
+        if f.module is not m or f.parent is not None:
+            continue
+        reps, stores = _generator_stores(f)
+        if not stores:
+            continue
+        defs = single_defs(f.node)
+        r.analysed(f)
+        for st, val in stores:
+            n_stores += 1
+            bad = None
+            seen = set()
+
+            def scan(e, depth=0):
+                nonlocal bad
+                for n in ast.walk(e):
+                    if isinstance(n, ast.BinOp) and isinstance(n.op, ast.Mult):
+                        if matrix_kind(n.left, defs, reps) and \
+                                matrix_kind(n.right, defs, reps):
+                            bad = bad or n
+                    if isinstance(n, ast.Name) and n.id in defs \
+                            and depth < 5 and n.id not in seen:
+                        seen.add(n.id)
+                        scan(defs[n.id], depth + 1)
+            scan(val)
+            con = norm_stmt(st) if isinstance(st, ast.stmt) else dotted(st)
+            inst = f"{f.qualname}:{con[:80]}"
+            if bad is None:
+                r.ok("HAD", inst, loc(f, st), con[:140],
+                     "generator value is built without an elementwise "
+                     "product of matrices")
+            else:
+                r.violation(
+                    "HAD", f"{f.fq}|{con}", loc(f, bad), con[:160],
+                    f"`{dotted(bad)}` multiplies two matrices elementwise "
+                    "(`*`) where the composite map needs the matrix product "
+                    "(`@`): the result is not a homomorphic image (and the "
+                    "shapes do not even broadcast)", instance=inst)
+    r.require_count("HAD", "generator assignments in representation.py",
+                    n_stores, min_stores)
+
+
+# ---------------------------------------------------------------------------
+# inverse store, compose flag agreement, word fold, conjugation
+
+
+def rule_rep_structure(ctx):
+    r = ctx.r
+    r.rule("INV", "_set_generator stores utils.invert(matrix) under the "
+                  "inverse letter when compute_inverse is true; _compose "
+                  "iterates over all generator keys whenever inverses are "
+                  "not recomputed and passes the same flag on")
+    r.rule("FOLD", "_word_value is a left-to-right fold "
+                   "acc = acc @ generators[letter] from the identity")
+    r.rule("CONJ", "_conjugate composes with inv_mat @ M @ mat where "
+                   "inv_mat defaults to utils.invert(mat)")
+    # --- inverse store
+    f = ctx.p.get_function(REP, "Representation._set_generator")
+    r.analysed(f)
+    found = None
+    for n in ast.walk(f.node):
+        if isinstance(n, ast.If) and eval_test(
+                n.test, {"compute_inverse": True}) is True:
+            for s in n.body:
+                if isinstance(s, ast.Assign) and isinstance(
+                        s.targets[0], ast.Subscript):
+                    t = s.targets[0]
+                    key = dotted(t.slice)
+                    val = s.value
+                    if dotted(t.value) == "self.generators":
+                        found = (s, key, val)
+    if found is None:
+        r.violation("INV", f"{f.fq}|missing", loc(f, f.node),
+                    "_set_generator",
+                    "no store of the inverse under `if compute_inverse:` -- "
+                    "an inverse letter has no image", instance="_set_generator")
+    else:
+        s, key, val = found
+        ops = ops_chain(val, f.params[2])
+        key_ok = "invert_gen(" + f.params[1] + ")" in key.replace(" ", "")
+        if ops == ["inv"] and key_ok:
+            r.ok("INV", "_set_generator:inverse", loc(f, s), norm_stmt(s),
+                 "inverse letter -> inverse matrix")
+        else:
+            r.violation("INV", f"{f.fq}|inverse-store", loc(f, s),
+                        norm_stmt(s),
+                        f"the inverse letter is stored as {dotted(val)} under "
+                        f"key {key}: an inverse letter must map to "
+                        "utils.invert(matrix) under invert_gen(generator)",
+                        instance="_set_generator:inverse")
+    # primary store
+    prim = [n for n in ast.walk(f.node) if isinstance(n, ast.Assign)
+            and isinstance(n.targets[0], ast.Subscript)
+            and dotted(n.targets[0].value) == "self.generators"
+            and dotted(n.targets[0].slice) == f.params[1]]
+    if prim and dotted(prim[0].value) == f.params[2]:
+        r.ok("INV", "_set_generator:primary", loc(f, prim[0]),
+             norm_stmt(prim[0]), "generator -> matrix")
+    else:
+        r.violation("INV", f"{f.fq}|primary-store", loc(f, f.node),
+                    "_set_generator",
+                    "self.generators[generator] = matrix not found",
+                    instance="_set_generator:primary")
+    # --- _compose flag agreement
+    g = ctx.p.get_function(REP, "Representation._compose")
+    r.analysed(g)
+    flag = "compute_inverses"
+    sel = None
+    for n in ast.walk(g.node):
+        if isinstance(n, ast.If) and eval_test(n.test, {flag: True}) is True \
+                and eval_test(n.test, {flag: False}) is False:
+            a_true = [dotted(s.value) for s in n.body
+                      if isinstance(s, ast.Assign)]
+            a_false = [dotted(s.value) for s in n.orelse
+                       if isinstance(s, ast.Assign)]
+            sel = (n, a_true, a_false)
+    calls = [n for n in ast.walk(g.node) if isinstance(n, ast.Call)
+             and dotted(n.func).endswith("._set_generator")]
+    if sel is None or not calls:
+        raise AnalysisError("Representation._compose: iterator selection or "
+                            "_set_generator call not found")
+    n, a_true, a_false = sel
+    all_keys = any("generators" in x and "asym" not in x for x in a_false)
+    kw = None
+    for k in calls[0].keywords:
+        if k.arg == "compute_inverse":
+            kw = dotted(k.value)
+    if all_keys and kw == flag:
+        r.ok("INV", "_compose:flag-agreement", loc(g, n), "",
+             "all keys are iterated when inverses are not recomputed; the "
+             "same flag reaches _set_generator")
+    else:
+        why = []
+        if not all_keys:
+            why.append(f"with {flag}=False the loop iterates {a_false} "
+                       "(not every generator key): inverse letters get no "
+                       "image in the composed representation")
+        if kw != flag:
+            why.append(f"_set_generator receives compute_inverse={kw}, not "
+                       f"{flag}")
+        r.violation("INV", f"{g.fq}|flag-agreement", loc(g, n),
+                    "_compose", "; ".join(why),
+                    instance="_compose:flag-agreement")
+    # hom applied to the image of g
+    hom_calls = [c for c in ast.walk(g.node) if isinstance(c, ast.Call)
+                 and dotted(c.func) == "hom"]
+    if hom_calls and all(c.args and dotted(c.args[0]) == "image"
+                         for c in hom_calls):
+        r.ok("INV", "_compose:hom(image)", loc(g, hom_calls[0]),
+             dotted(hom_calls[0]), "hom is applied to the generator's image")
+    elif hom_calls:
+        r.violation("INV", f"{g.fq}|hom-arg", loc(g, hom_calls[0]),
+                    dotted(hom_calls[0]),
+                    "hom is not applied to the generator's own image",
+                    instance="_compose:hom(image)")
+    # --- word fold
+    h = ctx.p.get_function(REP, "Representation._word_value")
+    r.analysed(h)
+    loops = [n for n in ast.walk(h.node) if isinstance(n, ast.For)]
+    ok = False
+    site = h.node
+    why = "no fold loop found"
+    for lp in loops:
+        for s in lp.body:
+            if isinstance(s, ast.Assign) and isinstance(s.targets[0], ast.Name) \
+                    and isinstance(s.value, ast.BinOp) \
+                    and isinstance(s.value.op, ast.MatMult):
+                acc = s.targets[0].id
+                site = s
+                L, R = s.value.left, s.value.right
+                lv = dotted(lp.target)
+                if dotted(L) == acc and dotted(R) == f"self.generators[{lv}]":
+                    ok = True
+                elif dotted(R) == acc:
+                    why = (f"the fold is `{dotted(s.value)}`: letters are "
+                           "multiplied on the LEFT, so rho(uv) = rho(v)rho(u) "
+                           "(an anti-homomorphism)")
+                else:
+                    why = f"the fold step `{dotted(s.value)}` is not acc @ generators[letter]"
+    init = [n for n in h.node.body if isinstance(n, ast.Assign)
+            and isinstance(n.value, ast.Call)
+            and dotted(n.value.func) in ("utils.identity", "np.identity",
+                                         "np.eye")]
+    if ok and init:
+        r.ok("FOLD", "_word_value", loc(h, site), norm_stmt(site),
+             "left-to-right product from the identity")
+    else:
+        if ok and not init:
+            why = "the fold does not start from the identity matrix"
+        r.violation("FOLD", f"{h.fq}|fold", loc(h, site),
+                    norm_stmt(site)[:120] if isinstance(site, ast.stmt)
+                    else "_word_value", why, instance="_word_value")
+    # --- conjugation
+    c = ctx.p.get_function(REP, "Representation._conjugate")
+    r.analysed(c)
+    lam = [n for n in ast.walk(c.node) if isinstance(n, ast.Lambda)]
+    dflt = [n for n in ast.walk(c.node) if isinstance(n, ast.Assign)
+            and dotted(n.targets[0]) == "inv_mat"]
+    if lam:
+        parts = []
+
+        def flat(x):
+            if isinstance(x, ast.BinOp) and isinstance(x.op, ast.MatMult):
+                flat(x.left)
+                flat(x.right)
+            else:
+                parts.append(dotted(x))
+        flat(lam[0].body)
+        p0 = lam[0].args.args[0].arg
+        dfl_ok = bool(dflt) and ops_chain(dflt[0].value, "mat") == ["inv"]
+        if len(parts) == 3 and parts[1] == p0 and \
+                {parts[0], parts[2]} == {"mat", "inv_mat"} and dfl_ok:
+            r.ok("CONJ", "_conjugate", loc(c, lam[0]), dotted(lam[0]),
+                 "M -> inv_mat @ M @ mat with inv_mat = invert(mat)")
+        else:
+            r.violation("CONJ", f"{c.fq}|conj", loc(c, lam[0]),
+                        dotted(lam[0]),
+                        f"conjugation is {parts} (default inverse ok: "
+                        f"{dfl_ok}); the outer factors must be mat and its "
+                        "inverse for the result to be a homomorphism",
+                        instance="_conjugate")
+    else:
+        r.note("CONJ", loc(c, c.node), "_conjugate", "idiom not recognised")
+    # --- dual
+    d = ctx.p.get_function(REP, "Representation.dual")
+    r.analysed(d)
+    calls = [n for n in ast.walk(d.node) if isinstance(n, ast.Call)
+             and isinstance(n.func, ast.Attribute)
+             and n.func.attr in ("_compose", "compose")]
+    if calls:
+        check_inverse_transpose(r, d, calls[0], "Representation.dual", "DU")
